@@ -27,6 +27,7 @@ const (
 	ENot   = "not"   // A[0]
 	ECall  = "call"  // S = function name, A = args
 	EMatch = "match" // A[0] = subject, Arms
+	ENull  = "null"  // the null literal
 	EArr   = "arr"   // A = elements, Keys optional string keys (same length) for "k" => v
 )
 
@@ -93,10 +94,18 @@ type Stmt struct {
 	Init    *Expr   `json:"init,omitempty"`
 	NoInit  bool    `json:"no_init,omitempty"`
 	Step    string  `json:"step,omitempty"` // "" = post++ ; "pre++" ; "+=" ; "=+"
-	Subj    *Expr   `json:"subj,omitempty"`
-	Key     string  `json:"key,omitempty"`
-	Body    []*Stmt `json:"body,omitempty"`
-	Cases   []Case  `json:"cases,omitempty"`
+	// Cmp / BoundVar / Free generalise the loop header (family F3 counter-write):
+	// Cmp: comparison of the header, "" = the kind's default (`<=` for for, `<` for while/do-while),
+	// else one of "<", "<=", "!="; BoundVar: the bound is read from this variable (which the
+	// generator sets to N before the loop) instead of the literal N; Free: the body may write the
+	// counter — termination is then by the family's construction and enforced by refsem's budget.
+	Cmp      string  `json:"cmp,omitempty"`
+	BoundVar string  `json:"bound_var,omitempty"`
+	Free     bool    `json:"free,omitempty"`
+	Subj     *Expr   `json:"subj,omitempty"`
+	Key      string  `json:"key,omitempty"`
+	Body     []*Stmt `json:"body,omitempty"`
+	Cases    []Case  `json:"cases,omitempty"`
 }
 
 type Elif struct {
@@ -132,6 +141,7 @@ type Program struct {
 func Int(i int) *Expr                    { return &Expr{K: EInt, I: i} }
 func Str(s string) *Expr                 { return &Expr{K: EStr, S: s} }
 func Bool(b bool) *Expr                  { return &Expr{K: EBool, B: b} }
+func Null() *Expr                        { return &Expr{K: ENull} }
 func Var(n string) *Expr                 { return &Expr{K: EVar, S: n} }
 func Bin(op string, a, b *Expr) *Expr    { return &Expr{K: EBin, S: op, A: []*Expr{a, b}} }
 func Not(a *Expr) *Expr                  { return &Expr{K: ENot, A: []*Expr{a}} }
